@@ -325,3 +325,41 @@ SYN_TRUSTED = ['rustc MIR (-Zunpretty=mir, stable toolchain of the repository) a
                'mirsym interpreter and the library models listed under library_models_hit (each exercised by translator validation on every run)',
                'z3 sat/unsat answers', 'logos 0.12 runtime model (Lexer/LexerInternal methods)', 'rowan GreenNodeBuilder model (event log + its own panics)',
                'rowan cursor API / SyntaxNode (not executed symbolically; the builder log is the tree)']
+
+
+# ------------------------------------------------------------------------------------------------ long flat runs (native, executed code)
+# A token bound of 5 cannot see a counter that saturates or a buffer that wraps after 2^8 / 2^16 tokens.  Families of FLAT repetition (no
+# nesting: the nesting families are the growth probe's) are pumped to lengths around those powers of two and parsed natively; the tree must
+# still be the text.  (unit, separator, prefix, suffix)
+FLAT_FAMILIES = [
+    ('bit-array segments', '1', ', ', 'const a = <<', '>>\n'), ('list elements', '1', ', ', 'const a = [', ']\n'), ('tuple elements', '1', ', ', 'const a = #(', ')\n'),
+    ('call arguments', 'x', ', ', 'fn f() { g(', ') }\n'), ('operator chain', 'x', ' + ', 'fn f() { ', ' }\n'), ('statements', 'x', '\n', 'fn f() {\n', '\n}\n'),
+    ('definitions', 'const a = 1', '\n', '', '\n'), ('variants', 'A', ' ', 'type T { ', ' }\n'), ('parameters', 'a', ', ', 'fn f(', ') { 1 }\n'),
+    ('unqualified imports', 'a', ', ', 'import m.{', '}\n'), ('error tokens', '$', ' ', 'fn f() { ', ' }\n'), ('comments', '// c', '\n', '', '\nfn f() { 1 }\n'),
+    ('tokens after the nesting limit', 'x', ' ', 'fn f() { ' + '[' * 400, ' }\n'),
+]
+FLAT_LENGTHS = [127, 129, 255, 257, 300, 1000, 32769, 65537, 70000]
+
+
+def flat_runs(chk, oracle, props):
+    n = 0; bad = 0
+    for name, unit, sep, pre, suf in FLAT_FAMILIES:
+        for k in FLAT_LENGTHS:
+            if name == 'operator chain' and k > 1000:
+                continue            # rowan drops (and walks) deep left-nested trees recursively: outside parse_module, see DESIGN 7.2
+            text = pre + sep.join([unit] * k) + suf
+            r = oracle.ask('roundtrip', text)
+            n += 1
+            ok = isinstance(r, dict) and r.get('text_ok') is True and r.get('contiguous') is True
+            if not ok:
+                bad += 1
+                if bad <= 3:
+                    what = 'C02: the parser dies / panics' if (not isinstance(r, dict) or 'died' in r or 'panic' in r) else 'C01: the leaf tokens of the tree are not the text'
+                    if what[:3] in props:
+                        chk.violation('long-run:' + name.replace(' ', '-'), 'pumped', '%s on a flat run of %d %s (%r ... %d bytes): %s' % (what, k, name, text[:40], len(text), str(r)[:200]),
+                                      {'kind': 'flat-run', 'family': name, 'count': k, 'unit': unit, 'sep': sep, 'prefix': pre, 'suffix': suf}, confirmed=True)
+    chk.log('long flat runs: %d texts (%d families x lengths around 2^7, 2^8, 2^15, 2^16) parsed natively, %d not lossless' % (n, len(FLAT_FAMILIES), bad))
+    if not bad:
+        chk.validated += n
+    return n, bad
+
